@@ -1,6 +1,6 @@
 """C10 - indexing/slicing: single normalisation authority, read/write agreement, accessor tables, overflow-freedom."""
 import re
-from .core import (CheckError, find_match, arm_region, pat_str, strip_ref, origins, only_when, pat_paths,
+from .core import (builds_error, CheckError, find_match, arm_region, pat_str, strip_ref, origins, only_when, pat_paths,
                    Registry, op_local, bool_switches)
 
 META = {
@@ -435,7 +435,7 @@ def run(F, rep, tier):
             continue
         b = F.body(fn)
         toi = [c for c in b.calls if c.target.endswith('::to_isize')]
-        errs = [c for c in b.calls if re.search(r'NErr::\w+_error$', c.target)]
+        errs = [c for c in b.calls if builds_error(F, c)]
         if toi and len(errs) >= 2:
             rep.ok('R10.5', fn, 'to_isize + %d error exits' % len(errs))
         else:
